@@ -598,7 +598,7 @@ def check(pid, tier, seed):
             if fr['correspondence']:
                 broken.append(('correspondence', fr['correspondence']))
             fill_info = dict(entities_created=fr['entities'], records=fr['records'], growth_steps=len(fr['grows']), last_records=fr['tail'])
-        if tier == 'thorough' and not fr['error']:
+        if not fr['error']:
             fr2 = fill_check.run(REPO, CACHE, COQ, debug=True)
             if fr2['error']:
                 broken.append(('build', 'fill probe (debug): ' + fr2['error']))
